@@ -230,7 +230,14 @@ class Splitter:
         while True:
             equals_mark = self._next_mark(accept_eof=False)
             if equals_mark.group(0) == "}":
-                # End of entry
+                # End of entry - unless there is text which is no field (no `=`) in front of the bracket
+                if self.bibstr[key_start : equals_mark.start()].strip() != "":
+                    self._unaccepted_mark = equals_mark
+                    raise BlockAbortedException(
+                        abort_reason="Expected a `=` after entry key, "
+                        f"but found `{equals_mark.group(0)}`.",
+                        end_index=equals_mark.start(),
+                    )
                 return result, equals_mark.end(), duplicate_keys
 
             if equals_mark.group(0) != "=":
@@ -266,6 +273,7 @@ class Splitter:
             elif after_field_mark.group(0) == "}":
                 # If next mark is a closing bracket, put it back (will return in next loop iteration)
                 self._unaccepted_mark = after_field_mark
+                key_start = after_field_mark.start()
                 continue
             else:
                 self._unaccepted_mark = after_field_mark
